@@ -34,6 +34,12 @@ func dumpRaw(css []*ComparisonSeries) string {
 	var b strings.Builder
 	sorted := append([]*ComparisonSeries{}, css...)
 	sort.Slice(sorted, func(i, j int) bool { return sorted[i].Unit < sorted[j].Unit })
+	// the order in which the series are returned is part of what a caller sees
+	b.WriteString("returned order:")
+	for _, cs := range css {
+		fmt.Fprintf(&b, " %q", cs.Unit)
+	}
+	b.WriteByte('\n')
 	for _, cs := range sorted {
 		cs.AddSummaries(0.9, 25)
 		fmt.Fprintf(&b, "unit %q benchmarks %q series %q\n", cs.Unit, cs.Benchmarks, cs.Series)
